@@ -377,7 +377,12 @@ func vxGenFile(i int) vxFile {
 	f := vxFile{name: "p" + strconv.Itoa(i) + ".json", kind: vx.Choose(p+"kind", nFileKinds)}
 	switch f.kind {
 	case fkGood:
-		switch vx.Choose(p+"good", 4) {
+		switch vx.Choose(p+"good", 6) {
+		case 4: // reads the whole current document through the pointer "/": sees what earlier FILES did only when files are applied one after another
+			f.content = []byte(`[{"op":"copy","from":"/","path":"/w` + strconv.Itoa(i) + `"}]`)
+		case 5: // adds a member, so that a later file's view of the document differs from stdin
+			d := string([]byte{vxDigit(p + "d")})
+			f.content = []byte(`[{"op":"add","path":"/m","value":` + d + `},{"op":"test","path":"/m","value":` + d + `}]`)
 		case 3: // not idempotent: applying it twice differs from applying it once
 			f.content = []byte(`[{"op":"add","path":"/l/-","value":` + string([]byte{vxDigit(p + "d")}) + `}]`)
 		case 0:
